@@ -115,13 +115,13 @@ func init() {
 				"scope_clip_outline_items":       300,
 				"zindex_on_static_context_boxes": 100,
 				// paged documents with fixed boxes (families 5 and 6)
-				"paged_docs":                 400,
-				"fixed_box_items":            14000,
-				"fixed_repeated_items":       7000, // layers of fixed boxes painted on a page they are not declared on
-				"judged_fixed_earlier_pairs": 10000,
-				"judged_fixed_later_pairs":   9000,
-				"judged_fixed_earlier_ties":  2500, // decided by tree order alone: the fixed box of an earlier page first
-				"judged_fixed_later_ties":    2500, // ... the fixed box of a later page last
+				"paged_docs":                 550,
+				"fixed_box_items":            16000,
+				"fixed_repeated_items":       9500, // layers of fixed boxes painted on a page they are not declared on
+				"judged_fixed_earlier_pairs": 13000,
+				"judged_fixed_later_pairs":   11000,
+				"judged_fixed_earlier_ties":  2900, // decided by tree order alone: the fixed box of an earlier page first
+				"judged_fixed_later_ties":    2800, // ... the fixed box of a later page last
 			}
 			if tier == "thorough" {
 				for k := range m {
